@@ -641,7 +641,9 @@ def fallback_constants(ctx, g):
     r = norm(bc.local_origin(0), g)
     exp = ("param", 3, bc.debug.get(3, ""))
     ok = r[0] == "binop" and r[1] == "Ne" and exp in (r[2], r[3]) and contains(r, lambda s: isinstance(s, tuple) and s and s[0] == "call" and s[1].endswith("Iterator::count"))
-    take_ok = contains(r, lambda s: isinstance(s, tuple) and s and s[0] == "call" and s[1].endswith("Iterator::take") and contains(s[2][1], lambda q: q == exp) and s[2][1] != exp)
+    # the cap is evaluated: it must lie strictly above `expected` (take(expected) or less can never see a surplus table, take(expected - 1) never reaches the count)
+    takes = [s_ for s_ in subterms(r) if isinstance(s_, tuple) and s_ and s_[0] == "call" and s_[1].endswith("Iterator::take")]
+    take_ok = len(takes) == 1 and all((eval_term_env(unov_deep(strip(takes[0][2][1])), {exp: k}) or 0) > k for k in (1, 8, 21))
     ctx.require(ok and take_ok, "T4-z3-subgroup-count", bc.name, "count != expected", "returns take(expected + 1).count() != expected",
                 "bad_subgroup_count does not compare the (capped above expected) number of tables with `expected`: " + show(r, 1)[:100])
     b = ctx.body("euclidicity::is_euclidean")
@@ -659,6 +661,20 @@ def fallback_constants(ctx, g):
         every_iteration_reaches(ctx, "T3-no-skipped-subgroup", bsi, bi, "table-loop->stabilizer", "some subgroup of the given index is not examined: a non-euclidean cover can pass the fallback test")
     trues = [bi for bi, si, s in bsi.assigns() if s["place"]["l"] == 0 and norm(bsi.rv_origin(s["rv"]), g) == ("int", 0)]
     okf = bool(trues) and all(any(a[0] == "variant" and a[2] == 0 and is_call(a[1], "Iterator::next") for a in bsi.facts_at(bi)) for bi in trues)
+    # `bad` is answered exactly for a subgroup whose invariants DIFFER from the expected ones
+    bads = [bi for bi, si, s_ in bsi.assigns() if s_["place"]["l"] == 0 and eval_int(strip(norm(bsi.rv_origin(s_["rv"]), g))) == 1]
+    exp_p = ("param", 3, bsi.debug.get(3, ""))
+    def differs(a):
+        a = atom_norm(a, g)
+        if a[0] != "bool" or not (is_call(strip(a[1]), "PartialEq::ne") or is_call(strip(a[1]), "PartialEq::eq")):
+            return False
+        args = [strip(z) for z in strip(a[1])[2]]
+        if not (any(is_call(z, "abelian_invariants") for z in args) and exp_p in args):
+            return False
+        return a[2] == is_call(strip(a[1]), "PartialEq::ne")
+    okb = bool(bads) and all(any(differs(a) for a in bsi.facts_at(bi)) for bi in bads)
+    ctx.require(okb, "T3-no-skipped-subgroup", bsi.name, "return true <- invariants != expected", "`bad` exactly for a subgroup whose abelian invariants differ from the expected ones",
+                "bad_subgroup_invariants answers `bad` for a subgroup whose invariants EQUAL the expected ones (or without comparing them): every euclidean cover fails the fallback test")
     ctx.require(okf, "T3-no-skipped-subgroup", bsi.name, "return false", "`not bad` only after every subgroup was examined", "bad_subgroup_invariants can return false before all subgroups were examined")
     # invars != [0,0,0] on the connected path: a comparison of abelian_invariants(..) with a 3-zero array dominates the fallback chain
     okc = False
